@@ -121,8 +121,43 @@ class HoistLiterals(NodeVisitor):
         self.module = module
         self._ignore_slots = ignore_slots
         self._hoisted = OrderedDict()
+        self._annotations_are_text = self.has_future_annotations(module)
         self.visit(module)
         self.place_bindings()
+
+    def has_future_annotations(self, module):
+        for statement in module.body:
+            if isinstance(statement, ast.ImportFrom) and statement.module == '__future__':
+                if 'annotations' in [alias.name for alias in statement.names]:
+                    return True
+        return False
+
+    def visit_AnnAssign(self, node):
+        if not self._annotations_are_text:
+            return self.generic_visit(node)
+
+        # With `from __future__ import annotations` an annotation is kept as source text, a name there would change it
+        self.visit(node.target)
+        if node.value is not None:
+            self.visit(node.value)
+
+    def visit_arg(self, node):
+        if not self._annotations_are_text:
+            return self.generic_visit(node)
+
+    def visit_FunctionDef(self, node):
+        if not self._annotations_are_text:
+            return self.generic_visit(node)
+
+        for field, value in ast.iter_fields(node):
+            if field == 'returns':
+                continue
+            for child in (value if isinstance(value, list) else [value]):
+                if isinstance(child, ast.AST):
+                    self.visit(child)
+
+    def visit_AsyncFunctionDef(self, node):
+        self.visit_FunctionDef(node)
 
     def nearest_function_namespace(self, node):
         """
